@@ -68,6 +68,14 @@ static void build_variants(bool thorough) {
         if (k12) recs.push_back({ 3, 10, ref::build_fmt12(fmt12_family(k12)) });
         v.cmap = ref::build_cmap(recs); g_var.push_back(v);
     }
+    // first segment starting at U+0000 (1, 2 and 9 code points) and closing segments of several lengths that carry real mappings
+    for (unsigned zlen : { 1u, 2u, 9u }) for (unsigned tail : { 1u, 2u, 4u, 0x20u, 0x101u }) for (int arr = 0; arr < 2; ++arr) {
+        Variant v; v.shipped = false; v.name = "syn zero-start len=" + std::to_string(zlen) + " tail=" + std::to_string(tail) + (arr ? " array" : " delta");
+        std::vector<ref::Seg4> sg; ref::Seg4 a; a.start = 0; a.end = zlen - 1; a.use_array = arr != 0; a.delta = arr ? 0 : 3; if (arr) for (unsigned k = 0; k < zlen; ++k) a.arr.push_back(uint16_t(3 + k)); sg.push_back(a);
+        sg.push_back({ 0x20, 0x7E, uint16_t(20 - 0x20), false, {} });
+        ref::Seg4 z; z.start = 0x10000 - tail; z.end = 0xFFFF; z.use_array = arr != 0; z.delta = arr ? 0 : uint16_t(0x200 - z.start); if (arr) for (unsigned k = 0; k < tail; ++k) z.arr.push_back(uint16_t(0x200 + k)); sg.push_back(z);
+        std::vector<ref::EncRec> recs; recs.push_back({ 3, 1, ref::build_fmt4(sg) }); v.cmap = ref::build_cmap(recs); g_var.push_back(v);
+    }
     // encoding-record preference: every presence combination, each subtable mapping 'A' to a different glyph
     static const int bmp[5][2] = { {0,0}, {0,1}, {0,2}, {0,3}, {3,1} };      // already sorted by (platform, encoding)
     for (int mask = 1; mask < 32; ++mask) for (int sm = 0; sm < 4; ++sm) {
